@@ -83,11 +83,11 @@ class GenericResolver(Generic[K, M]):
             for tp in members_storage.members.values()
         ):
             return members_storage
-        if not hasattr(tp, "__orig_bases__"):
-            return members_storage
+        # ``__orig_bases__`` is inherited: for ``class D(C)`` the attribute found on D is C's own one
+        orig_bases = vars(tp).get("__orig_bases__", getattr(tp, "__bases__", ()))
 
         bases_members: dict[K, TypeHint] = {}
-        for base in reversed(tp.__orig_bases__):
+        for base in reversed(orig_bases):
             bases_members.update(self.get_resolved_members(base).members)
 
         return replace(
